@@ -51,6 +51,24 @@ fn main() {
                 vec!["allocation bound: 64 KiB + 64 x bytes sent (a parsed header costs about 50 bytes of bookkeeping for as little as 5 bytes on the wire, and vectors double)", "a child killed by the harness watchdog is inconclusive, a child that dies by itself (abort, signal) is a violation"],
             )
         }
+        "C02" => {
+            // the conversation part comes from props_sock; here: the peer-address clause under resets
+            let mut parts2: Vec<Part> = vec![];
+            if let Some((p, _, _)) = props_sock::parts(&cli) {
+                parts2 = p;
+            }
+            let mut p = make_part("real-reset-before-accept", "CONV/sock", cli.cases(6, 300), props_sock2::c02_reset_strategy, |_| (), |w, c| props_sock2::c02_reset_test(w, c));
+            p.max_workers = Some(4);
+            p.max_shrink_iters = 4;
+            parts2.push(p);
+            drive(
+                &cli,
+                parts2,
+                "cases: 1-4 pipelined requests per connection from the RFC 7230 head grammar (standard and extension methods, targets up to 1.4 KiB, 0-64 headers with duplicates / empty values / colons / inner SP,HT / OWS variants / letter-case variants), over UNIX sockets and (sampled) TCP; oracle: delivered method, url, version, header list and remote_addr equal what was sent, also through Display / Debug and header-name comparison; part real-reset-before-accept: 1-4 TCP connections that sent a complete request and were reset (SO_LINGER 0) before the server was started on the listener, beside 1-2 ordinary ones: every request that is delivered carries its client's socket address; non-trivial: at least one header / all ordinary requests delivered",
+                &["socket engine: kernel timing is not controlled; a watchdog expiry is reported as inconclusive (exit 2), never as a violation", "inputs follow the grammar of DESIGN.md 3.1 (CRLF line ends, token header names, visible-ASCII values and targets)"],
+            );
+            return;
+        }
         "C07" => {
             let mut p = make_part("real-edge", "CONV/sock", cli.cases(40, 2_000), props_sock2::c07_real_edge_strategy, |_| (), |w, c| props_sock2::c07_real_edge_test(w, c));
             p.max_workers = Some(4);
